@@ -105,6 +105,13 @@ func RedactMongoLog(jsonStr string) (*orderedmap.OrderedMap[string, any], error)
 		}
 		command, ok := attr.Get("command")
 		if !ok {
+			if shouldEagerRedact {
+				if planSummary, psOk := attr.Get("planSummary"); psOk {
+					if psStr, ok := planSummary.(string); ok {
+						attr.Set("planSummary", redactFieldNamesFromPlanSummary(psStr))
+					}
+				}
+			}
 			if redactNamespaces {
 				if ns, ok := attr.Get("ns"); ok {
 					if nsStr, ok := ns.(string); ok {
